@@ -30,6 +30,8 @@ CONSTANTS MODE,     \* "gen" | "file" | "steps"
           DircmpIgnoreList,       \* DEVIATION D6: filecmp.dircmp default ignore list hides RCS CVS tags .git ... on both sides
           DryJobNeedsDstDir,      \* DEVIATION D7: job-level dry_run on an uninitialised destination job: dircmp -> FileNotFoundError
           CloneExcludeHitsSpecial,\* DEVIATION D8: the exclude patterns given to copytree at clone time also hit the state point / document file
+          SpecialByPrefix,        \* DEVIATION D10: the state point / document file names are appended to the exclude PATTERNS (re.match: prefix,
+                                  \*                '.' a wildcard) and applied at every depth, so user files that merely start like them are skipped
           CliFilterOnCwd          \* DEVIATION D9: `signac sync -f <filter>` evaluates the filter on the project of the working directory
 
 NOW   == 9                                     \* mtime of everything written by the sync (larger than all model times)
@@ -86,11 +88,19 @@ SameO(a, b, deep, o) == IF ~deep /\ Opt(o, "sizeOnly", FALSE) THEN a.size = b.si
 ExSp(o)  == o.exclude.on /\ Opt(o.exclude, "sp", FALSE)      \* the exclude pattern also matches 'signac_statepoint.json'
 ExDoc(o) == o.exclude.on /\ Opt(o.exclude, "doc", FALSE)     \* ... 'signac_job_document.json'
 UserExcl(n, o) == o.exclude.on /\ n \in o.exclude.names     \* re.match on the NAME inside the current directory
-\* R-prefix (calibrated): sync_jobs always appends the state point and (unless COPY) the document file NAME to the patterns, and
-\* re.match is a prefix match - so a roll-back copy 'signac_job_document.json~' is excluded from the file walk too (not from a clone)
-Excl(n, o) == UserExcl(n, o) \/ (o.docSync # "copy" /\ n = BAKFN)
+\* The files signac manages itself (state point; the document unless COPY) must not take part in the file walk.  DEVIATION D10: sync_jobs
+\* appends their NAMES to the exclude patterns, so every name that re.match()es them is skipped, at every depth of the walk and inside
+\* copied sub-directories: 'signac_statepoint.json.bak', 'signac_statepointXjson', a roll-back copy 'signac_job_document.json~', and
+\* a file called exactly 'signac_statepoint.json' in a sub-directory.  Fixed: the two files are skipped by exact name at the top level
+\* only (they are not part of the model's directories at all), user patterns keep their re.match semantics.
+SPFN == "signac_statepoint.json"
+SpLike  == {SPFN, "signac_statepoint.json.bak", "signac_statepointXjson"}
+DocLike == {DOCFN, BAKFN, "signac_job_document.json.orig"}
+SpecialHit(n, o) == SpecialByPrefix /\ (n \in SpLike \/ (o.docSync # "copy" /\ n \in DocLike))
+Excl(n, o) == UserExcl(n, o) \/ SpecialHit(n, o)
+InJob(o) == [k \in (DOMAIN o) \cup {"inJob"} |-> IF k = "inJob" THEN TRUE ELSE o[k]]       \* copytree called from inside sync_jobs
 Ign(n)     == DircmpIgnoreList /\ n \in IgnoreNames           \* DEVIATION D6
-TreeExcl(n, o) == ~CopytreeIgnoresExclude /\ UserExcl(n, o)       \* DEVIATION D5 (fixed: copytree(ignore=...) by name)
+TreeExcl(n, o) == ~CopytreeIgnoresExclude /\ (UserExcl(n, o) \/ (Opt(o, "inJob", FALSE) /\ SpecialHit(n, o)))   \* DEVIATION D5 (fixed: copytree(ignore=...))
 CopyFile(a, o) == IF Opt(o, "times", FALSE) THEN a ELSE [a EXCEPT !.mtime = NOW]   \* shutil.copy: fresh mtime; copy2 (-p -t): preserved
 Verdict(sf, df, p, o) == CASE o.strategy = "always" -> TRUE
                            [] o.strategy = "never"  -> FALSE
@@ -118,14 +128,14 @@ Walk(S, D, o, deep, pfx) ==
       diff == {n \in (DOMAIN S.f) \cap (DOMAIN D.f) : ~Ign(n) /\ ~Excl(n, o) /\ ~SameO(S.f[n], D.f[n], deep, o)}
       subs == SortBy({n \in (DOMAIN S.d) \cap (DOMAIN D.d) : ~Ign(n)}, o.nord)    \* no exclude test here (as the code)
       \* the left_only loop handles files AND directories, i.e. directories arrive before differing files are looked at
-      loCopies == loF # {} \/ \E n \in loD : HasAnyFile(S.d[n], o)
-      D1 == IF ~dry THEN [f |-> Over([n \in loF |-> CopyFile(S.f[n], o)], D.f), d |-> Over([n \in loD |-> CopyTree(S.d[n], o)], D.d)]
-            ELSE IF DryCopytreeMkdirs THEN [D EXCEPT !.d = Over([n \in loD |-> Skeleton(S.d[n], o)], D.d)]
+      loCopies == loF # {} \/ \E n \in loD : HasAnyFile(S.d[n], InJob(o))
+      D1 == IF ~dry THEN [f |-> Over([n \in loF |-> CopyFile(S.f[n], o)], D.f), d |-> Over([n \in loD |-> CopyTree(S.d[n], InJob(o))], D.d)]
+            ELSE IF DryCopytreeMkdirs THEN [D EXCEPT !.d = Over([n \in loD |-> Skeleton(S.d[n], InJob(o))], D.d)]
             ELSE D
       over == {n \in diff : Verdict(S.f[n], D.f[n], pfx \o <<n>>, o)}
       cons == IF o.strategy = "none" THEN {} ELSE {pfx \o <<n>> : n \in diff}
       D2 == IF dry THEN D1 ELSE [D1 EXCEPT !.f = Over([n \in over |-> CopyFile(S.f[n], o)], D1.f)]
-      n1 == Cardinality(loF) + SumSet2(loD, LAMBDA n : NFiles(S.d[n], o))
+      n1 == Cardinality(loF) + SumSet2(loD, LAMBDA n : NFiles(S.d[n], InJob(o)))
       n2 == n1 + Cardinality(over)
   IN IF dry /\ DryCopyRaises /\ loCopies THEN [dir |-> D1, res |-> "TypeError", fn |-> "", cons |-> {}, n |-> 0]
      ELSE IF diff # {} /\ o.strategy = "none" THEN [dir |-> D1, res |-> "FileSyncConflict", fn |-> FirstOf(diff, o.nord), cons |-> {}, n |-> n1]
@@ -311,7 +321,6 @@ CodeOpts(c) == IF IsCli THEN CliOpts(c.cmd, c.src, c.dst, TRUE) ELSE c.o
      R-update  : DocSync.update is dict.update: top-level keys, nested mappings replaced wholesale
      R-copy    : under DocSync.COPY the job document is a file (file rules apply, project document not synchronised)
      R-mixed   : ByKey with a non-empty source mapping over a destination scalar raises TypeError (document rolled back)
-     R-prefix  : the always-excluded document file name is a re.match PREFIX pattern: 'signac_job_document.json~' is excluded too
      R-stale   : a stale roll-back copy '<document>~' makes the document sync of a non-empty document refuse with RuntimeError,
                  document untouched (any exception is fine for C14 as long as the document keeps its pre-sync content) *)
 RECURSIVE NoTimeDir(_)
@@ -320,7 +329,8 @@ NoTimeJob(j)   == [j EXCEPT !.dir = NoTimeDir(j.dir), !.dmt = 0]
 NoTimeProj(P)  == [P EXCEPT !.jobs = [j \in DOMAIN P.jobs |-> NoTimeJob(P.jobs[j])]]
 JobOf(P, j)    == IF j \in DOMAIN P.jobs THEN P.jobs[j] ELSE NoJob
 EffDir(job, o) == IF o.docSync = "copy" THEN WithDocFile(job, o) ELSE job.dir        \* R-copy
-ExclPath(p, o) == (o.exclude.on /\ \E i \in 1..Len(p) : p[i] \in o.exclude.names) \/ (o.docSync # "copy" /\ p = <<BAKFN>>)   \* R-prefix
+ExclPath(p, o) == o.exclude.on /\ \E i \in 1..Len(p) : p[i] \in o.exclude.names
+SpecialLikePath(p) == \E i \in 1..Len(p) : p[i] \in SpLike \cup DocLike
 IgnPath(p)     == \E i \in 1..Len(p) : p[i] \in IgnoreNames
 Reach(p, o)    == Len(p) = 1 \/ o.recursive
 IsOk(x)        == x.res = "ok" /\ ~x.o.dryRun
@@ -425,7 +435,10 @@ RealResSet(x) == LET o2 == [x.o EXCEPT !.dryRun = FALSE]
   {r} \cup (IF ProjLevel(o2) /\ o2.parallel # "no" /\ r # "ok" THEN ParResOf(x.src, x.dst, o2) ELSE {})
 \* a document file may be REWRITTEN with identical content (a failed item assignment on a synced list saves on exit): not a change
 NoDmt(P) == [P EXCEPT !.jobs = [j \in DOMAIN P.jobs |-> [P.jobs[j] EXCEPT !.dmt = 0]]]
-ReqDryRunFrame(x) == x.o.dryRun => x.rawSame /\ x.srcSame /\ NoDmt(x.post) = NoDmt(x.dst) /\ x.res \in {ResName(r) : r \in RealResSet(x)}
+\* (R-stale: when the real run would be refused because of a roll-back copy - possibly one it has just copied itself - the dry run,
+\*  which copies nothing, is not required to predict that)
+DryResOk(x) == x.res \in {ResName(r) : r \in RealResSet(x)} \/ "RuntimeError" \in RealResSet(x)
+ReqDryRunFrame(x) == x.o.dryRun => x.rawSame /\ x.srcSame /\ NoDmt(x.post) = NoDmt(x.dst) /\ DryResOk(x)
 ReqDeepByContent(x) == (x.o.deep /\ ~x.o.dryRun) =>
   /\ x.res = "ok" => \A b \in Cand(x) : b.s.data # b.d.data =>
         x.o.strategy # "none" /\ IF Verdict(b.s, b.d, b.p, x.o) THEN Written(x, b) ELSE Kept(x, b)
@@ -464,10 +477,12 @@ Violated(x) == {n \in ReqNames : ~ReqVal(n, x)}
 PFiles(P) == UNION {{<<j, f>> : f \in AllFiles(P.jobs[j].dir, <<>>)} : j \in DOMAIN P.jobs}
 PDirs(P)  == UNION {{<<j>>} \cup {<<j>> \o d : d \in AllDirs(P.jobs[j].dir, <<>>)} : j \in DOMAIN P.jobs}
 Tags(n, x) ==
-  CASE n = "FilesArrive" -> {IF \A m \in MissingFiles(x) : IgnPath(m.p) THEN "dircmp-ignored-name" ELSE "file-missing:" \o Level(x)}
+  CASE n = "FilesArrive" -> {IF \A m \in MissingFiles(x) : IgnPath(m.p) THEN "dircmp-ignored-name"
+                             ELSE IF \A m \in MissingFiles(x) : SpecialLikePath(m.p) THEN "name-matches-special-file-pattern"
+                             ELSE "file-missing:" \o Level(x)}
     [] n = "DryRunFrame" ->
          LET js == (DOMAIN x.post.jobs) \cup (DOMAIN x.dst.jobs)
-             t1 == IF x.res \notin {ResName(r) : r \in RealResSet(x)} THEN {"raises-" \o x.res} ELSE {}
+             t1 == IF ~DryResOk(x) THEN {"raises-" \o x.res} ELSE {}
              t2 == IF PDirs(x.post) # PDirs(x.dst) THEN {"directory-created"} ELSE {}
              \* DEVIATION D3 only reaches keys INSIDE mappings that exist on both sides; anything else is a different defect
              nestedOnly(d, q) == q.t = "m" /\ DOMAIN q.m = DOMAIN d.m /\ \A k \in DOMAIN d.m : q.m[k] = d.m[k] \/ (q.m[k].t = "m" /\ d.m[k].t = "m")
@@ -513,6 +528,8 @@ Excused(c) ==
   \cup (IF ProjDeepDropped /\ ProjLevel(c.o) /\ c.o.deep THEN {"DeepByContent"} ELSE {})
   \cup (IF CopytreeIgnoresExclude /\ c.o.exclude.on THEN {"ExcludeFrame"} ELSE {})
   \cup (IF DircmpIgnoreList /\ UsesIgnored(c) THEN {"FilesArrive"} ELSE {})
+  \cup (IF SpecialByPrefix /\ \E j \in DOMAIN c.src.jobs : \E f \in AllFiles(c.src.jobs[j].dir, <<>>) : SpecialLikePath(f.p)
+        THEN {"FilesArrive"} ELSE {})
   \cup (IF CloneExcludeHitsSpecial /\ ExSp(c.o) THEN {"Superset", "Idempotent"} ELSE {})   \* (the repeat meets a directory without state point)
   \cup (IF CliFilterOnCwd /\ IsCli /\ c.cmd.sel.kind = "filter" THEN {"Superset", "FilesArrive"} ELSE {})
 
@@ -568,7 +585,7 @@ IsFileMode == MODE \in {"file", "clifile"}
 RAW == IF IsFileMode THEN <<>> ELSE [i \in 1..NCASE |-> [k \in 1..NR |-> RandomElement(0..1048575)]]
 Ids == <<"sp1", "sp2", "sp3">>
 SPTAB == [sp1 |-> [a |-> "1"], sp2 |-> [a |-> "2"], sp3 |-> [b |-> "1"]]
-NORD == <<"f", "g", "s", DOCFN, BAKFN, "tags">>       \* sorted() order of every name of the universe
+NORD == <<"f", "g", "s", DOCFN, BAKFN, SPFN, "signac_statepoint.json.bak", "tags">>       \* sorted() order of every name of the universe
 KORD == <<"k1", "k2", "n", "old">>
 DataSeq == <<[data |-> "A", size |-> 1], [data |-> "B", size |-> 1], [data |-> "CC", size |-> 2]>>
 \* LARGE contents (opaque tokens; the harness expands "@<size>:<v>" to <size> bytes: v = a the base content, f / m / z the base with its
@@ -591,9 +608,11 @@ RelSlot(s, r, compat) == IF ~compat THEN (IF r % 5 = 0 /\ s.ex THEN [s EXCEPT !.
                                 [] r % 5 = 2 -> (IF s.ex THEN [s EXCEPT !.r.mtime = 3 - s.r.mtime] ELSE s)
                                 [] r % 5 = 3 -> (IF s.ex THEN [s EXCEPT !.r.data = Twin(s.r.data, r \div 5)] ELSE s)   \* same size and mtime, other content
                                 [] OTHER -> SlotAt((r \div 5) % NSLOT)
-MkDir(top, sx, sf) == [f |-> [n \in {n \in DOMAIN top : top[n].ex} |-> top[n].r],
-                       d |-> IF sx THEN ("s" :> [f |-> IF sf.ex THEN ("f" :> sf.r) ELSE <<>>, d |-> <<>>]) ELSE <<>>]
-TopNames(tags) == IF tags THEN {"f", "g", "tags"} ELSE {"f", "g"}
+\* ssp: the sub-directory also holds a file named exactly like the state point file (an embedded project / exported sub-tree)
+MkDir(top, sx, sf, ssp) == [f |-> [n \in {n \in DOMAIN top : top[n].ex} |-> top[n].r],
+                            d |-> IF sx THEN ("s" :> [f |-> Over(IF sf.ex THEN ("f" :> sf.r) ELSE <<>>,
+                                                                 IF ssp THEN (SPFN :> [data |-> "B", size |-> 1, mtime |-> 1]) ELSE <<>>), d |-> <<>>]) ELSE <<>>]
+TopNames(tags) == IF tags THEN {"f", "g", "tags", "signac_statepoint.json.bak"} ELSE {"f", "g"}
 Pos(n) == CASE n = "f" -> 0 [] n = "g" -> 1 [] OTHER -> 2
 NVal(k) == CASE k = 0 -> [ex |-> FALSE, v |-> EmptyDoc] [] k = 1 -> [ex |-> TRUE, v |-> Sc("1")] [] k = 2 -> [ex |-> TRUE, v |-> Sc("2")]
              [] k = 3 -> [ex |-> TRUE, v |-> Mp(<<>>)] [] k = 4 -> [ex |-> TRUE, v |-> Mp(("k1" :> Sc("1")))]
@@ -610,15 +629,17 @@ MkJob(dir, doc, r) == [sp |-> TRUE, dir |-> dir, doc |-> doc, dex |-> doc # Empt
 BakRec == [data |-> OLDTXT, size |-> Len(OLDTXT), mtime |-> 1]
 AddBak(dir, yes) == IF yes THEN [dir EXCEPT !.f = Over((BAKFN :> BakRec), dir.f)] ELSE dir
 JobPair(v, b, compat, tags, sbak, dbak) ==
-  LET stop == [n \in TopNames(tags) |-> IF n = "tags" /\ v[b + 3] % 2 = 0 THEN NoF ELSE SlotAt(v[b + 1 + Pos(n)] % NSLOT)]
+  LET stop == [n \in TopNames(tags) |-> IF n = "tags" /\ v[b + 3] % 2 = 0 THEN NoF
+                                         ELSE IF n = "signac_statepoint.json.bak" THEN (IF v[b + 3] % 3 = 0 THEN SlotAt(1 + (v[b + 3] % 6)) ELSE NoF)
+                                         ELSE SlotAt(v[b + 1 + Pos(n)] % NSLOT)]
       dtop == [n \in TopNames(tags) |-> RelSlot(stop[n], v[b + 4 + Pos(n)], compat)]
       ssf == SlotAt(v[b + 7] % NSLOT)    dsf == RelSlot(ssf, v[b + 8], compat)
       sa == KVal(v[b + 11])  sb == KVal(v[b + 12])  sn == NVal(v[b + 13] % 9)
       da == RelVal(sa, KVal(v[b + 14]), v[b + 14] \div 8, compat)
       db == RelVal(sb, KVal(v[b + 15]), v[b + 15] \div 8, compat)
       dnn == RelVal(sn, NVal(v[b + 16] % 9), v[b + 16] \div 8, compat)
-  IN [s |-> MkJob(AddBak(MkDir(stop, v[b + 9] % 2 = 1, ssf), sbak), MkDoc(sa, sb, sn), v[b + 17]),
-      d |-> MkJob(AddBak(MkDir(dtop, v[b + 10] % 3 > 0, dsf), dbak), MkDoc(da, db, dnn), v[b + 18])]
+  IN [s |-> MkJob(AddBak(MkDir(stop, v[b + 9] % 2 = 1, ssf, tags /\ v[b + 9] % 3 = 0), sbak), MkDoc(sa, sb, sn), v[b + 17]),
+      d |-> MkJob(AddBak(MkDir(dtop, v[b + 10] % 3 > 0, dsf, FALSE), dbak), MkDoc(da, db, dnn), v[b + 18])]
 SubsetAt(k) == {Ids[i] : i \in {i \in 1..3 : (k \div (IF i = 1 THEN 1 ELSE IF i = 2 THEN 2 ELSE 4)) % 2 = 1}}
 PermSeq == SetToSeq(SetToSeqs({"sp1", "sp2", "sp3"}))
 CustomSeq == <<{}, {<<"f">>}, {<<"g">>, <<"s", "f">>}, {<<"f">>, <<"g">>, <<"s", "f">>, <<DOCFN>>}, {<<"s", "f">>, <<DOCFN>>}>>
@@ -748,6 +769,12 @@ Features(c, x) ==
                (IF L.w = "project" THEN c.dst.pbak ELSE BAKFN \in DOMAIN c.dst.jobs[L.w].dir.f), "stale-backup-at-doc-conflict")
      \cup T(ProjLevel(c.o) /\ c.o.selection.on /\ DOMAIN c.src.jobs # {} /\ sel = {}, "empty-selection")
      \cup T(UsesIgnored(c), "dircmp-ignored-name")
+     \cup T(\E j \in sel \cap DOMAIN c.dst.jobs : \E f \in AllFiles(c.src.jobs[j].dir, <<>>) : Len(f.p) = 1 /\ f.p[1] \in (SpLike \cup DocLike) \ {BAKFN},
+            "special-like-name-top")
+     \cup T(\E j \in sel \cap DOMAIN c.dst.jobs : \E f \in AllFiles(c.src.jobs[j].dir, <<>>) : Len(f.p) > 1 /\ Last(f.p) = SPFN /\ c.o.recursive
+                 /\ SubSeq(f.p, 1, 1) \in AllDirs(c.dst.jobs[j].dir, <<>>), "special-name-nested-common-dir")
+     \cup T(\E j \in sel \cap DOMAIN c.dst.jobs : \E f \in AllFiles(c.src.jobs[j].dir, <<>>) : Len(f.p) > 1 /\ Last(f.p) = SPFN /\ c.o.recursive
+                 /\ ~(SubSeq(f.p, 1, 1) \in AllDirs(c.dst.jobs[j].dir, <<>>)), "special-name-nested-source-only-dir")
      \cup T(Cardinality(sel) > 1, "multi-job")
 
 ---------------------------------------------------------------------------
@@ -837,7 +864,7 @@ ExcludeFrame == Holds("ExcludeFrame")        PureExcludeFrame == Pure("ExcludeFr
 SelectionFrame == Holds("SelectionFrame")    PureSelectionFrame == Pure("SelectionFrame")
 \* an excuse must be needed only where a deviation is switched on
 ExcusesOnlyWithDeviation == (~DryCopyRaises /\ ~DryCopytreeMkdirs /\ ~DryNestedDocWrites /\ ~ProjDeepDropped /\ ~CopytreeIgnoresExclude
-                             /\ ~DircmpIgnoreList /\ ~DryJobNeedsDstDir) => r.excused = {}
+                             /\ ~DircmpIgnoreList /\ ~DryJobNeedsDstDir /\ ~CloneExcludeHitsSpecial /\ ~SpecialByPrefix /\ ~CliFilterOnCwd) => r.excused = {}
 \* OrderConfluent on the model: whatever order the workers take the jobs in, a sync that returns ends in SyncFn's destination
 OrderConfluent == (MODE = "steps" /\ pend = {}) =>
   LET cs == GenCase(c)  R == SyncFn(cs.src, cs.dst, cs.o) IN (sres = "ok") = (R.res = "ok") /\ (sres = "ok" => cur = R.dst)
